@@ -190,7 +190,7 @@ def same_value(sym, got, exp, is_float):
 
 
 def h_decode(sym):
-    """One block with 1..K variables of every fetch-type mix (forked), symbolic block id byte, timestamp and payload.
+    """One block with 0..K variables of every fetch-type mix (forked), symbolic block id byte, timestamp and payload.
     Bounds: k = max variables; exact = only k variables; first = type index of variable 0 fixed (sharding)."""
     K = sym.B['k']
     pkid = sym.int('pkid', 0, 255)
@@ -198,7 +198,7 @@ def h_decode(sym):
     if not ours:
         nv, tsel = 1, [sym.B.get('first', 0)]
     else:
-        nv = K if sym.B.get('exact') else 1 + sym.choice('nv', K)
+        nv = K if sym.B.get('exact') else sym.choice('nv', K + 1)        # 0..K variables (an empty block is legal)
         tsel = [sym.choice(f't{k}', 8) if (k or 'first' not in sym.B) else sym.B['first'] for k in range(nv)]
     types = [FW_TYPES[t] for t in tsel]
     total = sum(t[2] for t in types)
@@ -230,6 +230,8 @@ def h_decode(sym):
     assert conf is lc
     assert t == ts[0] + 256 * ts[1] + 65536 * ts[2], 'timestamp is not the 24-bit little-endian value'
     assert len(data) == nv
+    if nv == 0:
+        sym.goal('empty-block')
     off = 0
     for k in range(nv):
         name, tid, size, signed, ffmt = types[k]
@@ -681,7 +683,7 @@ HARNESSES = [
             timeout=(600, 1800), smt_timeout=1.5, goals=('decoded', 'memory-variable'),
             note='raw-memory variables whose stored type has another size than the fetch type, followed by a table variable'),
     Harness('decode', h_decode, quick=dict(k=3), thorough=dict(k=3), timeout=(300, 900), smt_timeout=1.5,
-            goals=('decoded', 'other-block', 'float', 'fp16', 'signed')),
+            goals=('decoded', 'other-block', 'float', 'fp16', 'signed', 'empty-block')),
     Harness('lifecycle', h_lifecycle, quick=dict(n=5, create_statuses=3, defaults=True),
             thorough=dict(n=6, create_statuses=4, defaults=True), timeout=(300, 1700), float_model='real', symbolic=False,
             goals=('create-acked', 'create-refused', 'started', 'stopped', 'deleted', 're-added'),
